@@ -12,6 +12,7 @@ pub struct C05 {
 }
 
 pub const D_BOUND: usize = 240;
+const LIMIT: usize = 80;
 const MAX_TEXT: usize = 64 * 1024;
 
 #[derive(Clone, Debug, PartialEq)]
@@ -27,6 +28,8 @@ pub enum Layer {
     WideInline(usize, usize),
     /// `n` flat statements of a kind in front of everything else (see `preamble`)
     Pre(usize, usize),
+    /// `n` nested arrays, each one the *second* element of its parent (lead: 0 `1`, 1 `[]`, 2 `{}`, 3 `""`)
+    LedArray(usize, usize),
     /// `n` array-of-tables headers, each one level below the previous (`[[a]]`, `[[a.a]]`, ...):
     /// every level is an array and a table; the recipe's statement lands in the innermost element
     AotChain(usize),
@@ -40,7 +43,8 @@ pub struct Recipe {
 }
 
 /// `n` flat statements of a kind in front of the recipe's own statement (0 key/values, 1 comment
-/// lines, 2 dotted keys under one prefix, 3 headers, 4 array-of-tables elements, 5 blank lines)
+/// lines, 2 dotted keys under one prefix, 3 headers, 4 array-of-tables elements, 5 blank lines,
+/// 6 inline tables holding a dotted key, 7 arrays of inline tables holding dotted keys)
 fn preamble(kind: usize, n: usize) -> String {
     let mut s = String::new();
     for i in 0..n {
@@ -50,7 +54,9 @@ fn preamble(kind: usize, n: usize) -> String {
             2 => s.push_str(&format!("p.q.k{i} = 1\n")),
             3 => s.push_str(&format!("[t{i}]\n")),
             4 => s.push_str("[[t]]\nx = 1\n"),
-            _ => s.push('\n'),
+            5 => s.push('\n'),
+            6 => s.push_str(&format!("k{i} = {{ a.b = 1 }}\n")),
+            _ => s.push_str(&format!("k{i} = [ {{ a.b = 1 }}, {{ a.b.c = 2, d.e = 3 }} ]\n")),
         }
     }
     if kind == 3 || kind == 4 {
@@ -75,6 +81,7 @@ impl Recipe {
                 Layer::WideInline(n, m) => s.push_str(&format!(";J{n}x{m}")),
                 Layer::Pre(k, n) => s.push_str(&format!(";P{k}x{n}")),
                 Layer::AotChain(n) => s.push_str(&format!(";C{n}")),
+                Layer::LedArray(k, n) => s.push_str(&format!(";L{k}x{n}")),
             }
         }
         s
@@ -106,6 +113,10 @@ impl Recipe {
                     r.layers.push(Layer::Pre(a.parse().ok()?, b.parse().ok()?));
                 }
                 "C" => r.layers.push(Layer::AotChain(rest.parse().ok()?)),
+                "L" => {
+                    let (a, b) = rest.split_once('x')?;
+                    r.layers.push(Layer::LedArray(a.parse().ok()?, b.parse().ok()?));
+                }
                 _ => return None,
             }
         }
@@ -122,10 +133,11 @@ impl Recipe {
                 Layer::Array(k) => 2 * k,
                 Layer::Inline(k, m) => k * (2 * m + 3),
                 Layer::Mixed(k) => 3 * k + 2,
-                Layer::WideArray(_, n) => 10 * n + 4,
+                Layer::WideArray(k, n) => (if *k >= 7 { 20 } else { 10 }) * n + 4,
                 Layer::WideInline(n, m) => n * (2 * m + 10) + 8,
-                Layer::Pre(_, n) => 16 * n + 8,
+                Layer::Pre(k, n) => (if *k >= 6 { 56 } else { 16 }) * n + 8,
                 Layer::AotChain(n) => n * n + 6 * n,
+                Layer::LedArray(_, n) => 5 * n,
             };
         }
         n
@@ -192,12 +204,22 @@ impl Recipe {
                             3 => "1, # c\n",
                             4 => "[1], ",
                             5 => "{a=1}, ",
-                            _ => "# c\r\n",
+                            6 => "# c\r\n",
+                            _ => "{a.b=1, c.d.e=2}, ",
                         });
                     }
                     close.insert_str(0, "\n]");
                 }
                 Layer::Pre(..) | Layer::AotChain(..) => {}
+                Layer::LedArray(kind, n) => {
+                    let lead = ["1", "[]", "{}", "\"\""][*kind % 4];
+                    for _ in 0..*n {
+                        s.push('[');
+                        s.push_str(lead);
+                        s.push(',');
+                    }
+                    close.insert_str(0, &"]".repeat(*n));
+                }
                 Layer::WideInline(n, m) => {
                     s.push('{');
                     for i in 0..*n {
@@ -212,6 +234,17 @@ impl Recipe {
         s.push_str(&close);
         s.push('\n');
         s
+    }
+    /// container levels that the header path (and a chain of array-of-tables headers) puts above
+    /// the key/value pair
+    pub fn header_levels(&self) -> usize {
+        let h = match self.header {
+            Some((true, n)) => n + 1,
+            Some((false, n)) => n,
+            None => 0,
+        };
+        let c: usize = self.layers.iter().map(|l| if let Layer::AotChain(n) = l { 2 * n } else { 0 }).sum();
+        h + c
     }
     /// only breadth: a short header and key, nothing but wide layers with short sibling keys
     pub fn flat_only(&self) -> bool {
@@ -229,6 +262,8 @@ impl Recipe {
     pub fn single_construct(&self) -> Option<(&'static str, usize)> {
         match (&self.header, self.key, self.layers.as_slice()) {
             (None, 1, [Layer::Array(n)]) => Some(("array", *n)),
+            // an empty array or inline table in front is itself one level deeper
+            (None, 1, [Layer::LedArray(k, n)]) => Some(("array-as-second-element", *n + usize::from(*k % 4 == 1 || *k % 4 == 2))),
             (None, 1, [Layer::Inline(n, 1)]) => Some(("inline-table", *n)),
             (None, k, []) => Some(("dotted-key", k)),
             (Some((false, n)), 1, []) => Some(("header-path", *n)),
@@ -399,6 +434,15 @@ fn pair_recipes() -> Vec<Recipe> {
             v.push(Recipe { header: None, key: 1, layers: vec![Layer::Array(a), Layer::Inline(b, 1)] });
             v.push(Recipe { header: None, key: 1, layers: vec![Layer::Inline(a, 1), Layer::Array(b)] });
             v.push(Recipe { header: None, key: 1, layers: vec![Layer::Array(a), Layer::Mixed(b)] });
+            // a chain of containers whose innermost table holds one long dotted key with a scalar
+            v.push(Recipe { header: None, key: 1, layers: vec![Layer::Inline(a, 1), Layer::Inline(1, b)] });
+            v.push(Recipe { header: None, key: 1, layers: vec![Layer::Array(a), Layer::Inline(1, b)] });
+            v.push(Recipe { header: None, key: 1, layers: vec![Layer::Mixed(a), Layer::Inline(1, b)] });
+            // nested containers that are not the first element of their parent
+            for lead in 0..4 {
+                v.push(Recipe { header: None, key: 1, layers: vec![Layer::LedArray(lead, b)] });
+            }
+            v.push(Recipe { header: None, key: a, layers: vec![Layer::LedArray(1, 79), Layer::Inline(2, 1)] });
         }
     }
     // every level of the header path an array of tables, then more nesting inside the element
@@ -426,7 +470,7 @@ fn pair_recipes() -> Vec<Recipe> {
 fn wide_recipes() -> Vec<Recipe> {
     let mut v = Vec::new();
     for &n in &[100usize, 1000, 1500, 4000] {
-        for kind in 0..7 {
+        for kind in 0..8 {
             v.push(Recipe { header: None, key: 1, layers: vec![Layer::WideArray(kind, n)] });
         }
         v.push(Recipe { header: Some((true, 2)), key: 2, layers: vec![Layer::WideArray(1, n), Layer::WideArray(3, 50)] });
@@ -439,7 +483,7 @@ fn wide_recipes() -> Vec<Recipe> {
         v.push(Recipe { header: None, key: 1, layers: vec![Layer::WideArray(5, 10), Layer::WideInline(n, m)] });
         v.push(Recipe { header: None, key: 1, layers: vec![Layer::Array(30), Layer::WideInline(n, m), Layer::Array(20)] });
     }
-    for kind in 0..6 {
+    for kind in 0..8 {
         for &n in &[200usize, 2000] {
             v.push(Recipe { header: None, key: 1, layers: vec![Layer::Pre(kind, n)] });
             v.push(Recipe { header: Some((true, 3)), key: 2, layers: vec![Layer::Pre(kind, n), Layer::WideArray(1, 300)] });
@@ -470,18 +514,20 @@ fn random_recipe(rng: &mut Rng) -> Recipe {
         let nl = rng.below(4);
         let mut layers = Vec::new();
         for _ in 0..nl {
-            layers.push(match rng.below(7) {
+            layers.push(match rng.below(9) {
                 0 => Layer::Array(pick(rng)),
                 1 => Layer::Inline(pick(rng), 1),
                 2 => Layer::Inline(pick(rng), pick(rng)),
                 3 => Layer::Mixed(pick(rng)),
-                4 => Layer::WideArray(rng.below(7), *rng.pick(&[3usize, 50, 400, 1200, 3000])),
+                4 => Layer::WideArray(rng.below(8), *rng.pick(&[3usize, 50, 400, 1200, 3000])),
                 5 => Layer::WideInline(*rng.pick(&[2usize, 10, 79, 80, 300, 1000]), 1 + rng.below(3)),
-                _ => Layer::WideInline(1 + rng.below(40), pick(rng).min(60)),
+                6 => Layer::WideInline(1 + rng.below(40), pick(rng).min(60)),
+                7 => Layer::Inline(1, pick(rng)),
+                _ => Layer::LedArray(rng.below(4), pick(rng)),
             });
         }
         if rng.chance(1, 6) {
-            layers.push(Layer::Pre(rng.below(6), *rng.pick(&[5usize, 100, 1500])));
+            layers.push(Layer::Pre(rng.below(8), *rng.pick(&[5usize, 100, 1500])));
         }
         let r = Recipe { header, key, layers };
         if r.text_len() <= MAX_TEXT {
@@ -580,8 +626,11 @@ impl C05 {
                     ctx.count("verdict/accepted");
                     let depth: usize = field("DEPTH ").and_then(|d| d.parse().ok()).unwrap_or(usize::MAX);
                     ctx.max(&format!("max-accepted-depth/{profile}"), depth as u64);
-                    if depth > D_BOUND {
-                        ctx.violation("accepted-depth-unbounded", format!("recipe {enc}: accepted with container depth {depth} > {D_BOUND} (H2: {})", field("H2 ").unwrap_or_default()));
+                    // the header path contributes its own levels (array-of-tables levels twice); the
+                    // dotted key and the value behind it share one budget of LIMIT levels
+                    let bound = (r.header_levels() + LIMIT + 1).min(D_BOUND);
+                    if depth > bound {
+                        ctx.violation("accepted-depth-unbounded", format!("recipe {enc}: accepted with container depth {depth} > {bound} (H2: {})", field("H2 ").unwrap_or_default()));
                     }
                     if field("REPARSE ").as_deref() != Some("true") {
                         ctx.violation("print-not-fixed-point", format!("recipe {enc}: the print of the accepted document does not re-parse to itself"));
